@@ -876,3 +876,112 @@ b 2;") = Some [kv_a1; kv_b2] /\
   tree_read_on (of_string "a 1; /* c // d */ b 2;") = Some [kv_a1] /\
   tree_read_on (of_string "a 1; /*y*/ b /*x/*y*/ 2;") = Some [kv_a1].
 Proof. repeat split; vm_compute; reflexivity. Qed.
+
+(* ================================================================================================== *)
+(* non-vacuity examples added after the reviewer's audit (Properties/C02_nv.v, 2026-10-01)         *)
+(* ================================================================================================== *)
+
+(* ==== non-vacuity instances obtained BY APPLYING the theorems above (added after review) ================== *)
+From Coq Require Import Lia.
+
+(* C02_comment_counterexamples is a closed statement (seven computed readings); what makes them counterexamples: the
+   same document without the comment reads as both entries, the reading with the glued block comment (second conjunct
+   of the theorem) loses the first one *)
+Example C02_comment_counterexamples_nonvacuous :
+  tree_read (of_string "a 1; b 2;") = Some [kv_a1; kv_b2] /\
+  tree_read (of_string "a/* c */1; b 2;") = Some [kv_b2] /\
+  tree_read (of_string "a /* c // d */ 1; b 2;") = Some [] /\
+  [kv_a1; kv_b2] <> [kv_b2].
+Proof.
+  pose proof C02_comment_counterexamples as (_ & H2 & _ & _ & H5 & _).
+  refine (conj _ (conj H2 (conj H5 _))); [vm_compute; reflexivity | discriminate].
+Qed.
+
+(* C02_parser_terminates on the three malformed token lists computed above: the theorem gives <> Raise E_Fuel, the
+   computation shows which outcome it is *)
+Example C02_parser_terminates_applied :
+  let t1 := toks ["LINECOMMENT000001"; "BLOCKCOMMENT000002"; "{"]%string in
+  let t2 := toks ["}"; ";"; "a"; "("; "b"; ")"; ";"; "{"; "c"; "{"; "}"]%string in
+  let t3 := toks ["LINECOMMENT000001"; "a"; "("; "("; ")"; "{"; "}"; "1"; ")"; ";"; ";"; "b"; "2"; ";"; ")"]%string in
+  (parse_tokens t1 <> Raise E_Fuel /\ parse_tokens t2 <> Raise E_Fuel /\ parse_tokens t3 <> Raise E_Fuel) /\
+  parse_tokens t1 = Raise E_Index /\ parse_tokens t2 = Raise E_Index /\
+  parse_tokens t3 = Ok [(KS (of_string "LINECOMMENT000001"), Leaf (SStr (of_string "LINECOMMENT000001")));
+                        (KS (of_string "a"), Lst [Lst []; Dict []; Leaf (SInt 1)]); (KS (of_string "b"), Leaf (SInt 2))].
+Proof.
+  intros t1 t2 t3. split.
+  - exact (conj (C02_parser_terminates t1) (conj (C02_parser_terminates t2) (C02_parser_terminates t3))).
+  - vm_compute. repeat split; reflexivity.
+Qed.
+
+(* C02_helpers_terminate with the smallest fuel it allows (2 * 3 + 1 = 7) on the all-comment token list: the three
+   helpers, started at the positions whose walks are the longest (the backward walks wrap around the list end) *)
+Example C02_helpers_terminate_applied :
+  let ts := levels (map of_string ["LINECOMMENT000001"; "BLOCKCOMMENT000002"; "LINECOMMENT000003"]%string) in
+  (2 * length ts + 1 <= 7)%nat /\
+  (key_index 7 ts 2%Z 1%Z <> Raise E_Fuel /\ key_index 7 ts 3%Z 1%Z <> Raise E_Fuel /\
+   check_dict_end 7 ts (-2)%Z <> Raise E_Fuel /\ check_dict_end 7 ts (-1)%Z <> Raise E_Fuel /\
+   collect_struct 7 ts 0%Z 0%Z (of_string "}") 0%Z [] <> Raise E_Fuel) /\
+  key_index 7 ts 2%Z 1%Z = Raise E_Index /\ key_index 6 ts 3%Z 1%Z = Raise E_Fuel /\ check_dict_end 7 ts (-2)%Z = Raise E_Index.
+Proof.
+  intros ts.
+  assert (Hf : (2 * length ts + 1 <= 7)%nat) by (vm_compute; repeat constructor).
+  destruct (C02_helpers_terminate ts 7 Hf) as (Hk & Hc & Hs).
+  refine (conj Hf (conj (conj _ (conj _ (conj _ (conj _ _)))) _)).
+  - apply Hk; vm_compute; discriminate.
+  - apply Hk; vm_compute; discriminate.
+  - apply Hc; reflexivity.
+  - apply Hc; reflexivity.
+  - apply Hs; vm_compute; discriminate.
+  - vm_compute. repeat split; reflexivity.
+Qed.
+
+(* C02_parse_string_terminates itself (not its checked corollary): literal 1 mentions the placeholder of literal 2, a
+   list with a quoted element, a stray closing brace; counter five steps before nothing special and at the wrap-around *)
+Example C02_parse_string_terminates_applied :
+  let text := of_string "a 'x STRINGLITERAL000002'; b 'y'; c ( 1 'two words' ) ; } ;" in
+  Forall literal_ok (lxd_lit (lex true [] 0%Z text)) /\ parse_string true [] 0%Z text <> Raise E_Fuel /\
+  Forall literal_ok (lxd_lit (lex true [] 999998%Z text)) /\ parse_string true [] 999998%Z text <> Raise E_Fuel /\
+  lxd_lit (lex true [] 999998%Z text) = [(999999%N, of_string "x STRINGLITERAL000002"); (0%N, of_string "y"); (1%N, of_string "two words")].
+Proof.
+  intros text.
+  assert (H0 : Forall literal_ok (lxd_lit (lex true [] 0%Z text))) by (apply literals_okb_ok; vm_compute; reflexivity).
+  assert (H1 : Forall literal_ok (lxd_lit (lex true [] 999998%Z text))) by (apply literals_okb_ok; vm_compute; reflexivity).
+  refine (conj H0 (conj (C02_parse_string_terminates _ _ _ _ H0) (conj H1 (conj (C02_parse_string_terminates _ _ _ _ H1) _)))).
+  vm_compute. reflexivity.
+Qed.
+
+(* the two corollaries with the "no literal contains the word STRINGLITERAL" form of the side condition: literals with
+   blanks, an apostrophe, double quotes; placeholders of two literals in a nested dict and in a list; the counter at its
+   last six-digit value (the ids are 0, 1, 2) *)
+Example C02_insert_literals_terminate_no_word_nonvacuous :
+  let lits := [(999999%N, of_string "x y"); (0%N, of_string "it's ""so"" now"); (1%N, of_string "unused")] in
+  let d := [(KS (of_string "a"), Leaf (SStr (of_string "STRINGLITERAL999999")));
+            (KI 3, Dict [(KS (of_string "b"), Lst [Leaf (SStr (of_string "STRINGLITERAL000000")); Leaf (SInt 1)]);
+                         (KS (of_string "c"), Leaf (SStr (of_string "STRINGLITERAL999999")))])] in
+  wf (Dict d) = true /\ Forall (fun e => contains w_STRINGLITERAL (snd e) = false) lits /\
+  insert_string_literals lits d <> Raise E_Fuel /\
+  insert_string_literals lits d =
+    Ok [(KS (of_string "a"), Leaf (SStr (of_string "x y")));
+        (KI 3, Dict [(KS (of_string "b"), Lst [Leaf (SStr (of_string "it's ""so"" now")); Leaf (SInt 1)]);
+                     (KS (of_string "c"), Leaf (SStr (of_string "x y")))])].
+Proof.
+  intros lits d.
+  assert (H1 : wf (Dict d) = true) by (vm_compute; reflexivity).
+  assert (H2 : Forall (fun e => contains w_STRINGLITERAL (snd e) = false) lits)
+    by (repeat (constructor; [vm_compute; reflexivity|]); constructor).
+  refine (conj H1 (conj H2 (conj (C02_insert_literals_terminate_no_word lits d H1 H2) _))). vm_compute. reflexivity.
+Qed.
+
+Example C02_parse_string_terminates_no_word_nonvacuous :
+  let text := of_string "a 'x y'; 3 { b ( ""it's"" 1 ); c 'two  words'; } // done" in
+  Forall (fun e => contains w_STRINGLITERAL (snd e) = false) (lxd_lit (lex true [] 999999%Z text)) /\
+  parse_string true [] 999999%Z text <> Raise E_Fuel /\
+  lxd_lit (lex true [] 999999%Z text) = [(1%N, of_string "x y"); (2%N, of_string "it's"); (3%N, of_string "two  words")].
+Proof.
+  intros text.
+  assert (E : lxd_lit (lex true [] 999999%Z text) = [(1%N, of_string "x y"); (2%N, of_string "it's"); (3%N, of_string "two  words")])
+    by (vm_compute; reflexivity).
+  assert (H : Forall (fun e => contains w_STRINGLITERAL (snd e) = false) (lxd_lit (lex true [] 999999%Z text)))
+    by (rewrite E; repeat (constructor; [vm_compute; reflexivity|]); constructor).
+  exact (conj H (conj (C02_parse_string_terminates_no_word _ _ _ _ H) E)).
+Qed.
